@@ -10,6 +10,17 @@ from .harness_py import generate
 
 _counter = [0]
 
+
+class GeneratedCodeDoesNotCompile(Exception):
+    """the first error the compiler reports lies in a GENERATED file: an observation about the tree under test (owned by C06), not a harness defect"""
+
+
+def _first_error_in(log, outdir):
+    for ln in log.splitlines():
+        if " error" in ln or "error:" in ln:
+            return outdir in ln.split(" error")[0] or ln.lstrip().startswith(outdir)
+    return False
+
 PRELUDE = r"""
 #include <stdio.h>
 #include <stdlib.h>
@@ -425,7 +436,8 @@ class CTarget:
         self.build_rc = p.returncode
         self.build_log = p.stdout
         if p.returncode != 0:
-            raise MachineryFailure("C driver does not compile (options %r):\n%s" % (self.options, p.stdout[-3000:]))
+            raise (GeneratedCodeDoesNotCompile if _first_error_in(p.stdout, str(self.out)) else MachineryFailure)(
+                "C driver does not compile (options %r):\n%s" % (self.options, p.stdout[-3000:]))
 
     # ---- command construction (ti = index of the type in the list given to the constructor)
     def cmd_ser(self, cid, ti, v, bufsize, prefill=0):
